@@ -73,6 +73,36 @@ func c05(c *engine.Ctx) {
 				}
 			}
 			c.Check(okData, "C05.R2", "Cipher.Decrypt/data-from-plaintext", r.Pos(), "the returned message must be decoded from the authenticated plaintext")
+			// authenticate, then parse: nothing read out of the plaintext
+			// (header fields, lengths — also inside error values) before
+			// the msg_key comparison succeeded
+			okOrder := mk != nil
+			for _, call := range engine.Calls(dec) {
+				if mk == nil || call == ssa.CallInstruction(mk) || call == ssa.CallInstruction(dmCall) {
+					continue
+				}
+				if id := engine.CalleeID(call.Common()); id == "builtin.len" || id == "builtin.cap" {
+					continue // the length is that of the ciphertext: nothing decrypted is revealed
+				}
+				uses := false
+				for _, a := range engine.Args(call.Common()) {
+					for _, dc := range engine.FindCallBack(a, engine.FuncID(dm)) {
+						if dc == dmCall {
+							uses = true
+						}
+					}
+				}
+				if !uses {
+					continue
+				}
+				guarded := engine.GuardedBy(call, func(k engine.Cmp) bool {
+					return engine.CallOf(k.X) == mk && k.Op == token.EQL
+				})
+				if !guarded {
+					okOrder = false
+				}
+			}
+			c.Check(okOrder, "C05.R3", "Cipher.Decrypt/authenticate-before-parse", r.Pos(), "every consumer of the decrypted plaintext other than MessageKey must run only after the msg_key comparison succeeded (a rejected message yields nothing, not even through error texts)")
 		}
 	}
 	c.Floor("C05.R1", 1, n)
@@ -114,6 +144,73 @@ func c05(c *engine.Ctx) {
 			"every byte of the ciphertext must be authenticated: AES-IGE must decrypt encrypted.EncryptedData itself (got %s) after rejecting len %% 16 != 0", engine.Describe(src))
 	}
 	c.Floor("C05.R1c", 1, len(dcalls))
+
+	// R6: what is authenticated is exactly the rest of this frame. The
+	// decoders of EncryptedMessage must leave EncryptedData with the length of
+	// the unread buffer (a longer slice keeps bytes of an earlier frame).
+	restLen := "(bin.Buffer).Len(p:b)" // Len has a value receiver
+	var lenExpr func(v ssa.Value, d int) string
+	lenExpr = func(v ssa.Value, d int) string {
+		if d > 6 || v == nil {
+			return "?"
+		}
+		switch x := v.(type) {
+		case *ssa.MakeSlice:
+			return engine.Describe(x.Len)
+		case *ssa.Slice:
+			if x.Low != nil {
+				if k, ok := engine.ConstInt(x.Low); !ok || k != 0 {
+					return "?"
+				}
+			}
+			if x.High == nil {
+				return lenExpr(x.X, d+1)
+			}
+			return engine.Describe(x.High)
+		case *ssa.Call:
+			if engine.CalleeID(x.Common()) == "builtin.append" && len(x.Common().Args) == 2 && lenExpr(x.Common().Args[0], d+1) == "0" {
+				return lenExpr(x.Common().Args[1], d+1)
+			}
+		case *ssa.UnOp:
+			if x.Op == token.MUL && engine.Describe(x) == "p:b.Buf" {
+				return restLen
+			}
+		}
+		return "?"
+	}
+	r6 := 0
+	for _, name := range []string{"EncryptedMessage.Decode", "EncryptedMessage.DecodeWithoutCopy"} {
+		fn := c.MustFunc("C05.R6", "crypto", name)
+		if fn == nil {
+			continue
+		}
+		stores := 0
+		engine.Instrs(fn, func(i ssa.Instruction) {
+			st, ok := i.(*ssa.Store)
+			if !ok || engine.Describe(st.Addr) != "p:e.EncryptedData" {
+				return
+			}
+			stores++
+			r6++
+			le := lenExpr(st.Val, 0)
+			c.Check(le == restLen, "C05.R6", name+"/ciphertext-is-rest-of-frame#"+ordinal(fn, st), st.Pos(), "EncryptedData must get exactly the unread length of the buffer (length here: %s)", le)
+			// the bytes are this frame's: filled by ConsumeN(dst, rest) or aliasing b.Buf
+			if _, alias := st.Val.(*ssa.UnOp); !alias {
+				okFill := false
+				for _, call := range engine.CallsTo(fn, false, "(*bin.Buffer).ConsumeN") {
+					a := engine.Args(call.Common())
+					if engine.Describe(a[1]) == "p:e.EncryptedData" && engine.Describe(a[2]) == restLen && engine.Dominates(st, call) && coversSuccess(fn, call) {
+						okFill = true
+					}
+				}
+				c.Check(okFill, "C05.R6", name+"/ciphertext-filled-from-frame#"+ordinal(fn, st), st.Pos(), "the stored slice must be filled by ConsumeN(e.EncryptedData, b.Len()) on every accepting path")
+			}
+		})
+		if stores == 0 {
+			c.Fail("C05.R6", name+"/ciphertext-is-rest-of-frame", fn.Pos(), "%s never sets EncryptedData", name)
+		}
+	}
+	c.Floor("C05.R6", 2, r6)
 
 	// R3 error discipline
 	e := 0
@@ -171,4 +268,19 @@ func cmp64(a, b int64) int {
 		return 1
 	}
 	return 0
+}
+
+// coversSuccess: every nil-error return of fn is guarded by call's error
+// result being nil.
+func coversSuccess(fn *ssa.Function, call ssa.CallInstruction) bool {
+	rs := engine.SuccessReturns(fn)
+	for _, r := range rs {
+		if !engine.GuardedBy(r, func(k engine.Cmp) bool {
+			cl := engine.CallOf(k.X)
+			return cl != nil && ssa.CallInstruction(cl) == call && engine.IsNil(k.Y) && k.Op == token.EQL
+		}) {
+			return false
+		}
+	}
+	return len(rs) > 0
 }
